@@ -150,6 +150,9 @@ def run(ctx, res):
         t, txt = rng.choice(bodies)
         mode = CATALOGUE[combo[0]][0]
         ddl = txt + " " + " ".join(CATALOGUE[i][1] for i in combo) + ";"
+        if rng.random() < 0.35:
+            # a trailing comment on the line of the clauses (with an apostrophe, a quote, an equals sign): it changes nothing
+            ddl += rng.choice([" -- don't change", " -- it's the owner's choice", " -- k=v isn't parsed", ' -- say "hi"'])
         cases.append((combo, t, txt + ";", ddl, mode))
     for mode_of in ("own", "sql"):
         B = ctx.impl.map([{"op": "run", "ddl": c[2], "run": {"output_mode": c[4] if mode_of == "own" else "sql"}} for c in cases])
